@@ -1,5 +1,5 @@
 //! C12: MBC register protocol through the bus. One case per line:
-//! c12 type=T rom=R ram=M ws=a:v;a:v;... | rb=<rom bank after each write> mb=<ram bank ...> r0=<byte at 0x0000> r4=<byte at 0x4000> ra=<byte at 0xA000>
+//! c12 type=T rom=R ram=M ws=a:v;a:v;... | rb=<rom bank after each write> mb=<ram bank ...> r0=<byte at 0x0000> r4=<byte at 0x4000> ra=<byte at 0xA000> f0=/f4=<first byte of the instruction-fetch slice at 0x0000 / 0x4000>
 use crate::mem::{memory_read_byte, memory_write_byte, MemoryAreas};
 use crate::roms::*;
 use crate::util::{Opts, Rng};
@@ -39,7 +39,7 @@ pub fn run(_sub: &str, opts: &Opts, w: &mut dyn Write) {
       mem.cart_state = header(t, r, m).create_cart_state();
       let n = 1 + rng.below(len) as usize;
       let mut ws = Vec::new(); let mut rb = Vec::new(); let mut mb = Vec::new();
-      let mut r0 = Vec::new(); let mut r4 = Vec::new(); let mut ra = Vec::new();
+      let mut r0 = Vec::new(); let mut r4 = Vec::new(); let mut ra = Vec::new(); let mut f4 = Vec::new(); let mut f0 = Vec::new();
       for _ in 0..n {
         let (a, v) = gen_write(&mut rng);
         memory_write_byte(p, a, v);
@@ -49,9 +49,12 @@ pub fn run(_sub: &str, opts: &Opts, w: &mut dyn Write) {
         r0.push(memory_read_byte(p, 0x0000).to_string());
         r4.push(memory_read_byte(p, 0x4000).to_string());
         ra.push(memory_read_byte(p, 0xa000).to_string());
+        // what the CPU would EXECUTE there: the instruction-fetch view of the same two windows
+        f4.push(crate::mem::get_executable_memory_slice(0x4000, p as *const MemoryAreas)[0].to_string());
+        f0.push(crate::mem::get_executable_memory_slice(0x0000, p as *const MemoryAreas)[0].to_string());
       }
-      writeln!(w, "c12 type={} rom={} ram={} banks={} ramb={} ws={} | rb={} mb={} r0={} r4={} ra={}", t, r, m, rom_bank_count(r), header(t, r, m).get_ram_size_bytes(), ws.join(";"),
-        rb.join(","), mb.join(","), r0.join(","), r4.join(","), ra.join(",")).unwrap();
+      writeln!(w, "c12 type={} rom={} ram={} banks={} ramb={} ws={} | rb={} mb={} r0={} r4={} ra={} f0={} f4={}", t, r, m, rom_bank_count(r), header(t, r, m).get_ram_size_bytes(), ws.join(";"),
+        rb.join(","), mb.join(","), r0.join(","), r4.join(","), ra.join(","), f0.join(","), f4.join(",")).unwrap();
     }
   }}}
 }
